@@ -288,6 +288,20 @@ theorem p_units_consistent (reg : Registry α) (hreg : RegistryWF reg) (n : ℤ)
   refine ⟨k.si / U.si, (toUnitlessScalar_ok_iff hk h2 _).mpr ⟨by rw [hd, h3], rfl⟩, ?_, by rw [timesUnit_dims, h3, hd]⟩
   rw [timesUnit_si]; field_simp
 
+/-- **Reported units of named parameter keys** (`temperature`, `density`, `doserate`, `doserate_alpha`, …; `include_params=True`).
+    `_get_derived_unit(reg, key)`: for a key of `get_derived_unit`'s table the registry's unit of that physical dimension, SI value
+    `∏ reg[i].si ^ eᵢ`, in every registry; a key that is neither derived nor a base key is looked up again without its last
+    `_`-separated word (`doserate_alpha` → `doserate`). -/
+theorem p_units_named_consistent (reg : Registry α) (hreg : RegistryWF reg) (key : String) :
+    (∀ e, Gen.Units.derivedTable.lookup key = some e →
+      ∃ U, getDerivedUnitFallback reg key = .ok U ∧ U.WF ∧ U.dims = e ∧ U.si = regProd reg e ∧ U.si ≠ 0) ∧
+    (Gen.Units.derivedTable.lookup key = none → keyIndex? key = none →
+      getDerivedUnitFallback reg key = getDerivedUnit (some reg) (dropLastWord key)) :=
+  getDerivedUnitFallback_spec reg hreg key
+
+example : Gen.Units.derivedTable.lookup "doserate_alpha" = none ∧ keyIndex? "doserate_alpha" = none ∧
+    Gen.Units.derivedTable.lookup "doserate" = some [2, 0, -3, 0, 0, 0, 0] := by decide +kernel
+
 /-- **A named constant of the wrong dimension is refused** by the `to_arrays` conversion (ValueError), wherever it
     stands in the parameter vector. -/
 theorem named_constant_wrong_dimension_refused (p us : List (PyVal α)) (hlen : p.length = us.length)
